@@ -98,6 +98,15 @@ func lexgenRun(c *Ctx, variant string) {
 		n := c.N
 		var specs []*LSpec
 		var names, loxs, gos []string
+		if variant == "greedy" {
+			for i, s := range curatedLexSpecs() {
+				name := fmt.Sprintf("k%04d", i)
+				specs = append(specs, s)
+				names = append(names, name)
+				loxs = append(loxs, s.Lox(c.Rng))
+				gos = append(gos, strings.ReplaceAll(lexPkgTemplate, "PKG", name))
+			}
+		}
 		for i := 0; i < n; i++ {
 			o := LGenOpts{MaxModes: 3, MaxRules: 4, Depth: 1, Small: c.Rng.Chance(2, 3)}
 			if c.Tier == "thorough" {
